@@ -781,7 +781,16 @@ class RunDueness(common.Suite):
                 if t["weight"] == 0.0 and t["min"] == 0 and rng.random() < 0.5:
                     t["weight"] = 1.0
             segs = [rng.randint(0, 7) for _ in range(rng.randint(1, 4))]
-            yield {"cycles": cyc, "table": table, "segs": segs, "seed": rng.randrange(2**31),
+            # the scheduler is inherited by every Monte Carlo driver; the table entries of Isobaric/Isotension/GrandCanonical
+            # that carry the DEFAULT names are ordinary entries once the user has configured them
+            driver = rng.choice(["base", "base", "canonical", "isobaric", "isotension", "grand"])
+            if driver in ("isobaric", "isotension") and len(table) >= 1:
+                table[0]["name"] = "default_cell_move"
+                if len(table) >= 2:
+                    table[1]["name"] = "default_displacement_move"
+            if driver == "grand" and len(table) >= 1:
+                table[0]["name"] = "default_exchange_move"
+            yield {"cycles": cyc, "table": table, "segs": segs, "seed": rng.randrange(2**31), "driver": driver,
                    "entry": rng.choice(["run", "srun", "irun"]), "roundtrip": rng.random() < 0.35}
 
     def real(self, case):
@@ -830,7 +839,29 @@ class RunDueness(common.Suite):
 
         with warnings.catch_warnings():
             warnings.simplefilter("ignore")
-            mc = MonteCarlo(Atoms("H"), max_cycles=case["cycles"], seed=case["seed"])
+            drv = case.get("driver", "base")
+            if drv == "base":
+                mc = MonteCarlo(Atoms("H"), max_cycles=case["cycles"], seed=case["seed"])
+                cls = MonteCarlo
+            else:
+                import machine
+                from quansino.mc.canonical import Canonical
+                from quansino.mc.gcmc import GrandCanonical
+                from quansino.mc.isobaric import Isobaric
+                from quansino.mc.isotension import Isotension
+
+                at = Atoms("Cu2", positions=[[0, 0, 0], [2, 1, 0]], cell=[8, 8, 8], pbc=True)
+                at.calc = machine.make_calc()
+                kw = dict(temperature=300.0, max_cycles=case["cycles"], seed=case["seed"])
+                if drv == "canonical":
+                    cls = Canonical
+                    mc = cls(at, **kw)
+                elif drv in ("isobaric", "isotension"):
+                    cls = Isobaric if drv == "isobaric" else Isotension
+                    mc = cls(at, pressure=0.0, **kw)
+                else:
+                    cls = GrandCanonical
+                    mc = cls(at, Atoms("Cu"), chemical_potential=0.0, number_of_exchange_particles=2, **kw)
             for t in case["table"]:
                 mc.add_move(Probe(t["name"], sim), criteria=ProbeCrit(), name=t["name"], interval=t["interval"],
                             probability=t["weight"], minimum_count=t["min"])
@@ -838,7 +869,11 @@ class RunDueness(common.Suite):
                 # the schedule must survive the documented dictionary round trip (e.g. a restart)
                 from ase.io.jsonio import decode, encode
 
-                mc = MonteCarlo.from_dict(decode(encode(mc.to_dict())))
+                mc = cls.from_dict(decode(encode(mc.to_dict())))
+                if drv != "base":
+                    import machine
+
+                    mc.atoms.calc = machine.make_calc()
             sim[0] = mc
             skipped = []
             for n in case["segs"]:
@@ -887,7 +922,7 @@ class RunDueness(common.Suite):
         return out[:6]
 
     def classify(self, case, obs):
-        return f"segs={len(case['segs'])}:{case['entry']}:{'restored' if case.get('roundtrip') else 'fresh'}"
+        return f"segs={len(case['segs'])}:{case['entry']}:{'restored' if case.get('roundtrip') else 'fresh'}:{case.get('driver', 'base')}"
 
 
 def suites(tier):
